@@ -162,6 +162,7 @@ static void element (long idx) {
   safe_apply_master_ob ("clear_errors", 0);
   if (bin) { push_constant_string ("save_binary"); push_number (1); safe_apply_master_ob ("set_policy", 2); }
   char *printed = 0;
+  int round = 0;
   if (mode_notrace) cap_begin ();
   object_t *ob = hx_load (load, 0);
   if (mode_notrace) printed = cap_end ();
@@ -190,6 +191,7 @@ static void element (long idx) {
     if (got != runbytes) { vx_fail ("C18:harness:generator-miscalibrated", "%s: line %d of %s generates %d bytes, generator assumed %d", label, runline, runfile, got, runbytes); cleanup_files (); return; }
     vx_count (3, 1);
   }
+second_round:
   if (ob) {
     if (mode_notrace) cap_begin ();
     svalue_t *r = hx_apply (ob, call, 0);
@@ -280,6 +282,18 @@ static void element (long idx) {
     if (i != nfr) { snprintf (key, sizeof key, "C18:printed-frame-count:%s", kind); vx_fail (key, "%s: %d trace lines printed, %d calls are active:\n%.600s", label, i, nfr, text); }
     vx_count (1, nfr);
   }
+  if (ob && round == 0 && !(ob->flags & O_DESTRUCTED) && function_exists ("zother", ob, 0)) {
+    /* second round: other functions pass through the same control-stack slots, then the same failing call again
+       (now found through the apply cache); the report must be the same */
+    svalue_t *z = hx_apply (ob, "zother", 0);
+    if (z) {
+      round = 1;
+      snprintf (label + strlen (label), sizeof label - strlen (label), " [second call]");
+      safe_apply_master_ob ("clear_errors", 0);
+      vx_count (4, 1);
+      goto second_round;
+    }
+  }
   /* leave the world as it was: objects of this case are destructed, files removed */
   for (object_t *o = obj_list, *nx; o; o = nx) { nx = o->next_all; if (!strncmp (o->name, "c18/t", 5) && !(o->flags & O_DESTRUCTED)) destruct_object (o); }
   remove_destructed_objects ();
@@ -297,7 +311,7 @@ int main (int argc, char **argv) {
   load_cases (cf);
   make_lib ();
   hx_boot (libdir, "SaveBinaryDir /c18bin\n", 0);
-  vx_count_name (0, "errors_raised"); vx_count_name (1, "frames_compared"); vx_count_name (2, "loaded_from_binary"); vx_count_name (3, "code_lengths_verified");
+  vx_count_name (0, "errors_raised"); vx_count_name (1, "frames_compared"); vx_count_name (2, "loaded_from_binary"); vx_count_name (3, "code_lengths_verified"); vx_count_name (4, "repeated_through_apply_cache");
   {
     extern int __sanitizer_symbolize_pc (void *, const char *, char *, size_t) __attribute__ ((weak));
     char sym[256];
